@@ -44,3 +44,11 @@ Proof. vm_compute. reflexivity. Qed.
 
 Lemma request_shape : http_method = "GET"%string /\ wait_before_do = true /\ wait_error_returns = true.
 Proof. repeat split. Qed.
+
+(* every exported method has a package-level function of the same name whose body is exactly
+   `return DefaultDatasource.<name>(<its own parameters>)` (checked by the translator, which
+   lists them): a package-level call IS the method call on DefaultDatasource *)
+Lemma package_functions_cover_methods :
+  forallb (fun m => existsb (String.eqb (m_name m)) package_functions) methods = true
+  /\ List.length package_functions = List.length methods.
+Proof. vm_compute. split; reflexivity. Qed.
